@@ -51,8 +51,18 @@ def run_shard(cid, tier, seed, shard, nshards, workdir, timeout, extra_env=None)
     env['VERIF_CONFIG'] = config['name']
     if extra_env:
         env.update(extra_env)
-    cmd = [PYTHON] + (['-O'] if config['opt'] else []) + [
-        '-m', 'usimmon.worker', cid, tier, str(seed), str(shard), str(nshards), out]
+    cover = os.environ.get('VERIF_COVER')
+    if cover:
+        # tools/cover.py: which lines of the library do the workloads reach? (diagnostic only)
+        os.makedirs(cover, exist_ok=True)
+        env['COVERAGE_FILE'] = os.path.join(cover, 'cov')
+        launcher = ['-m', 'coverage', 'run', '-p', '--branch', '--source',
+                    os.path.join(os.path.realpath(os.environ.get('VERIF_REPO', '/repo')), 'usim'),
+                    '-m', 'usimmon.worker']
+    else:
+        launcher = ['-m', 'usimmon.worker']
+    cmd = [PYTHON] + (['-O'] if config['opt'] else []) + launcher + [
+        cid, tier, str(seed), str(shard), str(nshards), out]
     errpath = os.path.join(workdir, 'shard-%d.err' % shard)
     try:
         with open(errpath, 'wb') as err:
